@@ -56,7 +56,7 @@ Theorem C08_reuse_refuted :
     let s := run_old clock ls init in
     find_op e (ops_of s) = Some o /\ o_phase o = PPlanned /\ lookup (o_key o) (s_dirs s) <> None.
 Proof.
-  exists stalled, (firstn 11 witness), 1, (mk_op 1 1000 hd0 (true, true) 1 PPlanned).
+  exists stalled, (firstn 13 witness), 1, (mk_op 1 1000 hd0 (true, true) 1 PPlanned).
   split; [repeat constructor|]. vm_compute. repeat split; discriminate.
 Qed.
 
